@@ -217,6 +217,16 @@ theorem assign_side {ex exo} {ts : TState} {w : Worker} {t : Task} {r : Nat}
     · simp only [hkk, if_false] at hk
       exact hS.wq k t' q' w' hk hw'
 
+/-- `TS` only looks at the scheduler state, the node list, the worker extras and the operation table -/
+theorem TS.of_fields {ts1 ts2 : TState} (h : TS X ts1) (hs : ts2.s = ts1.s) (hn : ts2.nodes = ts1.nodes)
+    (hw : ts2.wx = ts1.wx) (ho : ts2.ox = ts1.ox) : TS X ts2 := by
+  obtain ⟨s1, n1, w1, o1, x1, l1, d1⟩ := ts1
+  obtain ⟨s2, n2, w2, o2, x2, l2, d2⟩ := ts2
+  simp only at hs hn hw ho
+  subst hs; subst hn; subst hw; subst ho
+  obtain ⟨ht, hsd⟩ := h
+  exact ⟨ht, ⟨hsd.roots, hsd.nscq, hsd.wxnd, hsd.wxw, hsd.wpl, hsd.oxok, hsd.wq⟩⟩
+
 /-- **direct hand-off, tree part**: `assignUnqueuedTask` of a task that is neither queued nor assigned to
 a worker `w` that is not parked -/
 theorem assign_ts {ex exo} {ts : TState} {w : Worker} {t : Task} {r : Nat}
